@@ -148,16 +148,30 @@ theorem parse_by_trait (o : Options) (g : GenFull) (h : genFull o f t = .ok g)
   have hn : (g.base.cases.flatMap (·.consts)).Nodup := by simpa using hdup.1.1
   exact C05.parse_of_case g.base hn c hc d hd
 
+/-- how many traits `validateParsableTraits` walks before `t` (name order) -/
+private def walkRank (ts : List TraitDesc) (t : TraitDesc) : Nat :=
+  (ts.filter (fun x => decide (x.name < t.name))).length
+
+private theorem walkRank_lt (ts : List TraitDesc) (t' t : TraitDesc) (hm : t' ∈ ts) (hlt : t'.name < t.name) :
+    walkRank ts t' < walkRank ts t := by
+  unfold walkRank
+  apply filter_length_lt _ _ ts _ t' hm
+  · simpa using hlt
+  · simp [String.lt_irrefl]
+  · intro x hx
+    have hx' : x.name < t'.name := by simpa using hx
+    simpa using String.lt_trans hx' hlt
+
 /-- the constant of every row of every parsable trait is a key of its value's `case` — listed by
-the trait itself or, when `validateParsableTraits` marked it as a repeat, by the EARLIEST parsable
-trait (column order) that carries the same constant on the same value -/
+the trait itself or, when `validateParsableTraits` marked it as a repeat, by the FIRST parsable
+trait of the walk (name order) that carries the same constant on the same value -/
 private theorem dyn_in_case {o : Options} {g : GenFull} (h : genFull o f t = .ok g) (ha : Accepted f t.name k)
     (first : Option Value) (n : Nat) :
-    ∀ td ∈ g.traits, td.parsable = true → td.col = n → ∀ r ∈ td.rows,
+    ∀ td ∈ g.traits, td.parsable = true → walkRank g.traits td = n → ∀ r ∈ td.rows,
       r.dyn ∈ caseConsts g.traits first r.owner := by
   induction n using Nat.strongRecOn with
   | _ n ih =>
-    intro td htd hp hcol r hr
+    intro td htd hp hrank r hr
     obtain ⟨hown, _, huniq⟩ := row_facts h ha td htd r hr
     have hinst : td.instanceOf r.owner = some r := by
       unfold TraitDesc.instanceOf
@@ -175,7 +189,7 @@ private theorem dyn_in_case {o : Options} {g : GenFull} (h : genFull o f t = .ok
       simp only [Bool.and_eq_true, decide_eq_true_eq, List.any_eq_true, Bool.false_eq_true, if_false,
         beq_iff_eq] at hc
       obtain ⟨⟨hp', hlt⟩, r', hr', hname, hdyn⟩ := hc
-      have hin := ih t'.col (hcol ▸ hlt) t' ht' hp' rfl r' hr'
+      have hin := ih (walkRank g.traits t') (hrank ▸ walkRank_lt g.traits t' td ht' hlt) t' ht' hp' rfl r' hr'
       obtain ⟨hown', _, _⟩ := row_facts h ha t' ht' r' hr'
       obtain ⟨c, hc, _, hcv⟩ := mem_sortedValues.mp hown
       obtain ⟨c', hc', _, hcv'⟩ := mem_sortedValues.mp hown'
@@ -201,7 +215,7 @@ theorem parse_row (o : Options) (g : GenFull) (h : genFull o f t = .ok g) (ha : 
     g.base.parse r.dyn = some r.owner.val := by
   obtain ⟨hown, _, _⟩ := row_facts h ha td htd r hr
   have hn := C05.cases_nodup h
-  have hin := dyn_in_case h ha (sortedValues f t.name).head? td.col td htd hp rfl r hr
+  have hin := dyn_in_case h ha (sortedValues f t.name).head? (walkRank g.traits td) td htd hp rfl r hr
   obtain ⟨ts, _, hg, _⟩ := genFull_ok h
   have hcase : caseOf ts (sortedValues f t.name).head? r.owner ∈ g.base.cases := by
     subst hg; exact List.mem_map.mpr ⟨_, hown, rfl⟩
@@ -604,15 +618,16 @@ def twinFile : FileDef :=
 
 /-- the repeat marking of `validateParsableTraits`. /repo 7793249 marked a later parsable trait's
 constant whenever its value TEXT had been seen on the same enum value, whatever the types: the
-`0` of `code` was left out of `Circle`'s case although `Tint(0)` and `0` are different keys, so
-`ParseShape(0)` failed (and JSON / YAML `0`). The current rule (42de8c1) compares the types too:
+walk is in name order, `code` comes before `tint`, and `NoTint` = `Tint(0)` was left out of
+`Circle`'s case (`case "Circle", _code:`) although `Tint(0)` and `0` are different keys, so
+`ParseShape(NoTint)` failed (and JSON / YAML decoding through the `tint` trait). The current rule (42de8c1) compares the types too:
 both are listed; a repeat under the SAME type (`twinFile`) is listed once — without the marking the
 case would hold the constant twice and not compile — and both traits parse. -/
 theorem legacy_repeat_ignores_type_violates :
     (genFullQ { repeatIgnoresType := true } { parsable := ["tint", "code"] } tintFile
         { name := "Shape", kind := ⟨64, true⟩, cols := tintCols }).toOption.map (fun g =>
       (g.base.parse ⟨"Tint", .int 0⟩, g.base.parse ⟨"int", .int 0⟩, g.unmarshalJSON {} (.num 0), g.base.parse ⟨"int", .int 5⟩))
-      = some (some 0, none, none, some 1) ∧
+      = some (none, some 0, some 0, some 1) ∧
     (genFull { parsable := ["tint", "code"] } tintFile
         { name := "Shape", kind := ⟨64, true⟩, cols := tintCols }).toOption.map (fun g =>
       (g.base.parse ⟨"Tint", .int 0⟩, g.base.parse ⟨"int", .int 0⟩, g.unmarshalJSON {} (.num 0), g.base.parse ⟨"int", .int 5⟩))
